@@ -7,6 +7,7 @@ import KyupyVerif.Proofs.FormatEquiv
 import KyupyVerif.Proofs.FormatEquiv2
 import KyupyVerif.Proofs.FormatEquiv3
 import KyupyVerif.Proofs.FormatEquiv4
+import KyupyVerif.Proofs.FormatEquiv5
 /-! # C11 (capstone) — structural Verilog over a CELL LIBRARY: text → parse → `resolve_tlib_cells` → `SimOps` → `LogicSim`
 computes the DATASHEET denotation of the module
 
@@ -678,7 +679,7 @@ end Example
 One netlist description `nl : Nl` (ports `(is output, name)` in port-list order; gates `name = kind(drv…)` with a Verilog instance name
 each, in statement order), its two renderings
   `benchOf nl : List BStmt`   — `INPUT(n)` / `OUTPUT(n)` per port in port-list order, then `name = kind(drv…)` per gate,
-  `verilogOf nl : List Stmt`  — single-bit `input` / `output` declarations, then `kind inst(.o(name), .i0(d0), …)` per gate over the
+  `verilogOf nl : List Stmt`  — one single-bit `input n;` / `output n;` per port, then `kind inst(.o(name), .i0(d0), …)` per gate over the
                                 pin table `primTL` of the primitive library (port list `nl.portNames`),
 and the decidable common fragment `commonNlB nl`: port names pairwise different; gate names pairwise different; instance names pairwise
 different and no port name; no input port is a gate name; every output port is a gate name; every gate has at most four operands and
@@ -709,7 +710,12 @@ no operand is a constant literal.  Combinational AND sequential kinds (`DFF`, la
   `renderings_build_branchforks` — with `closedBfNlB` (= `closedNlB` and the branch-fork names `stem~inst/pin`, one per input
   connection, are pairwise different and no gate name / input port; Proofs/FormatEquiv4.lean) `verilogOKB` holds for EVERY parser
   configuration, `branchforks=True` included; a name containing `~` can be outside (kernel-checked example).
-* **Hypotheses that remain**: `commonNlB` resp. `closedNlB` / `closedBfNlB` (all about the description only); the scheduling
+  `bench_verilog_texts_to_nets`, `bench_verilog_text_sim_equiv` — FROM TEXT: `printBench (benchOf nl)` and `printVerilog [nlModule name nl]`
+  (Proofs/FormatEquiv5.lean: the text-level module whose statements become `verilogOf nl`) are the two texts of the description; the
+  circuits built from the model's reading of them have the two nets above, hence — closed description, any parser configuration,
+  schedules — the same captured `LogicSim` results (any layout / spelling of the texts by the C11 layout and token-class theorems).
+* **Hypotheses that remain**: `commonNlB` resp. `closedNlB` / `closedBfNlB` (all about the description only); at text level writable names
+  (`validStmt`, `validModule`) and no apostrophe in a signal name (`noAposB`); the scheduling
   hypotheses of the two end-to-end theorems (`orderOKB`, `forksOKB`, `linesDrivenB` for each parsed circuit and its order).
 * **Correspondence / oracle**: the renderings `benchOf` / `verilogOf` are CANONICAL (one statement per port, ports first; pin names
   `o`, `i0`…`i3`); the harness renders the same netlist with shuffled statements, grouped interface statements, renamed signals, kind
@@ -804,7 +810,7 @@ def exNlOrdV : List Nat := [6, 7, 9, 10, 2, 3, 0, 1, 4, 5, 8]
 /-- the two renderings -/
 example : benchOf exNl = [.intf ["a"], .intf ["y"], .intf ["b"], .gate "n" "NAND" ["a", "b"], .gate "q" "DFF" ["n"],
       .gate "y" "XOR" ["q", "a", "b"]] ∧
-    verilogOf exNl = [.decls [⟨.input, "a", none⟩, ⟨.output, "y", none⟩, ⟨.input, "b", none⟩],
+    verilogOf exNl = [.decls [⟨.input, "a", none⟩], .decls [⟨.output, "y", none⟩], .decls [⟨.input, "b", none⟩],
       .inst "NAND" "g1" [("o", .one "n"), ("i0", .one "a"), ("i1", .one "b")],
       .inst "DFF" "f" [("o", .one "q"), ("i0", .one "n")],
       .inst "XOR" "g2" [("o", .one "y"), ("i0", .one "q"), ("i1", .one "a"), ("i2", .one "b")]] ∧ exNl.nPos = 4 := by
@@ -961,6 +967,68 @@ example : closedNlB ⟨[(false, "a"), (true, "y")], [⟨"a~g/i0", "BUF", "g", ["
     verilogOKB { bf := true } primTL ["a", "y"]
       (verilogOf ⟨[(false, "a"), (true, "y")], [⟨"a~g/i0", "BUF", "g", ["a"]⟩, ⟨"y", "NOT", "h", ["a~g/i0"]⟩]⟩) = false := by
   decide +kernel
+
+/-! ### from TEXT: the two renderings as printed texts
+
+`KV.BenchText.printBench (benchOf nl)` and `KV.VerilogText.printVerilog [nlModule name nl]` (Proofs/FormatEquiv5.lean: the module of
+the text level whose statements `toRs` / `transform` turn into `verilogOf nl`) are the two TEXTS of the description; the model's
+reading of each text builds the circuit whose net the theorems above speak about. -/
+
+/-- **text → net, both formats**: for a description with writable names (`validStmt` / `validModule`: decidable) and no apostrophe in
+a signal name (`noAposB`), the circuit built from the model's reading of the printed bench text has the net `benchNet (benchOf nl)`, the
+one built from the printed Verilog module the net `verilogNet cfg primTL nl.portNames (verilogOf nl)` -/
+theorem bench_verilog_texts_to_nets (cfg : Cfg) (mname : String) (nl : Nl)
+    (hvb : (benchOf nl).all KV.BenchText.validStmt = true) (hvm : KV.VerilogText.validModule (nlModule mname nl) = true)
+    (hap : noAposB nl = true) :
+    (KV.BenchText.circOfText (KV.BenchText.printBench (benchOf nl))).map (fun C => C.toNet C.ioBench) =
+      some (benchNet (benchOf nl)) ∧
+    (KV.VerilogText.circOfText cfg primTL (KV.VerilogText.printVerilog [nlModule mname nl])).map (fun C => C.toNet C.ioVerilog) =
+      some (verilogNet cfg primTL nl.portNames (verilogOf nl)) := by
+  constructor
+  · rw [bench_text_to_netlist (benchOf nl) hvb]; rfl
+  · have := verilog_text_to_net cfg primTL (nlModule mname nl) (nlRs nl) hvm (toRs_nlModule mname nl hap) (hasPos_nlModule mname nl)
+      (ok_nlRs nl)
+    rw [transform_nlRs] at this
+    exact this
+
+/-- **`bench_verilog_text_sim_equiv`** — "the same netlist written in either format yields equivalent circuits", from the TEXTS: `nl` a
+closed description with fresh branch-fork names (`closedBfNlB`; any parser configuration `cfg`), `nB` / `nV` the nets of the circuits
+built from the model's reading of the printed bench text resp. the printed Verilog module, each with a schedule; two stimuli that
+agree on the constant slot and the interface positions: the 2-valued `LogicSim` results captured at the interface nodes (ports, state
+elements, in `s_nodes` order) are the same list -/
+theorem bench_verilog_text_sim_equiv (cfg : Cfg) (mname : String) (nl : Nl) (hcl : closedBfNlB nl = true)
+    (hvb : (benchOf nl).all KV.BenchText.validStmt = true) (hvm : KV.VerilogText.validModule (nlModule mname nl) = true)
+    (hap : noAposB nl = true) (nB nV : Net)
+    (hnB : (KV.BenchText.circOfText (KV.BenchText.printBench (benchOf nl))).map (fun C => C.toNet C.ioBench) = some nB)
+    (hnV : (KV.VerilogText.circOfText cfg primTL (KV.VerilogText.printVerilog [nlModule mname nl])).map
+      (fun C => C.toNet C.ioVerilog) = some nV)
+    (orderB orderV : List Nat)
+    (hoB : orderOKB nB orderB = true) (hfB : forksOKB nB orderB = true) (hlB : linesDrivenB Gen.kindPrefixes nB orderB = true)
+    (hoV : orderOKB nV orderV = true) (hfV : forksOKB nV orderV = true) (hlV : linesDrivenB Gen.kindPrefixes nV orderV = true)
+    (envB envV : Nat → Bool) (hz : envB nB.idx.zero = envV nV.idx.zero)
+    (hst : ∀ p, p < nl.nPos → envB (nB.idx.ppi + p) = envV (nV.idx.ppi + p)) :
+    (nB.sNodes.map fun n => (nB.node n).inPin 0 |>.map
+        (exec semL2n ((genOps Gen.kindPrefixes nB orderB false).map OpRow.toOp) envB)) =
+      (nV.sNodes.map fun n => (nV.node n).inPin 0 |>.map
+        (exec semL2n ((genOps Gen.kindPrefixes nV orderV false).map OpRow.toOp) envV)) := by
+  obtain ⟨h1, h2⟩ := bench_verilog_texts_to_nets cfg mname nl hvb hvm hap
+  rw [h1] at hnB
+  rw [h2] at hnV
+  cases hnB
+  cases hnV
+  have hc : closedNlB nl = true := by
+    rw [closedBfNlB, Bool.and_eq_true] at hcl; exact hcl.1
+  obtain ⟨hcm, hcc⟩ := closedNl_of nl hc
+  obtain ⟨_, _, _, _, _, _, hcap⟩ := bench_verilog_sim_equiv cfg nl hcm (benchOK_benchOf nl (commonNl_of nl hcm) hcc.kinds)
+    (renderings_build_branchforks cfg nl hcl) orderB orderV hoB hfB hlB hoV hfV hlV envB envV hz hst
+  exact hcap
+
+/-- the two texts of the example description; every text-level hypothesis holds -/
+example : KV.BenchText.printBench (benchOf exNl) = "INPUT(a)\nINPUT(y)\nINPUT(b)\nn = NAND(a, b)\nq = DFF(n)\ny = XOR(q, a, b)\n" ∧
+    KV.VerilogText.printVerilog [nlModule "top" exNl] =
+      "module top(a, y, b);\ninput a;\noutput y;\ninput b;\nNAND g1(.o(n), .i0(a), .i1(b));\nDFF f(.o(q), .i0(n));\nXOR g2(.o(y), .i0(q), .i1(a), .i2(b));\nendmodule\n" ∧
+    (benchOf exNl).all KV.BenchText.validStmt = true ∧ KV.VerilogText.validModule (nlModule "top" exNl) = true ∧
+    noAposB exNl = true := by decide +kernel
 
 end FormatEquiv
 
